@@ -165,7 +165,10 @@ func VH_C10_flat() {
 	q0 := &c10RProbe{id: 10, r: r, fail: true}
 	q1 := &c10RProbe{id: 11, r: r}
 	inner := NewFlow(q0)
-	inner.Connect(q0, DefaultAction, q1).Connect(q0, "b", nil).Connect(q1, "b", q0)
+	topDown := vNondet[bool]("wiredTopDown")
+	if !topDown {
+		inner.Connect(q0, DefaultAction, q1).Connect(q0, "b", nil).Connect(q1, "b", q0)
+	}
 	depth := vParam("depth", 2)
 	var in Node = inner
 	for d := 2; d < depth; d++ {
@@ -174,6 +177,12 @@ func VH_C10_flat() {
 	outer := NewFlow(p0)
 	outer.Connect(p0, DefaultAction, in).Connect(p0, "b", p3).Connect(p3, DefaultAction, in)
 	outer.Connect(in, DefaultAction, p1).Connect(in, "b", p2)
+	if topDown {
+		// the order in which the flows are wired does not matter: the inner flow may get its
+		// connections after it has been embedded in its parent
+		vCover("wired-top-down")
+		inner.Connect(q0, DefaultAction, q1).Connect(q0, "b", nil).Connect(q1, "b", q0)
+	}
 	err := outer.Run(vNewCtx(), r.store)
 
 	// replay the recorded (id, action) script on the flattened machine
